@@ -70,8 +70,8 @@ def gen_prange():
     # randomness that does not go through a random_state object
     libc, glob_rng, init_rng = [], [], []
     for p in sorted(glob.glob(os.path.join(REPO, 'sknetwork', '**', '*.pyx'), recursive=True)):
-        txt = open(p).read()
-        if re.search(r'\brand\(\)', txt):
+        txt = '\n'.join(ln.split('#')[0] for ln in open(p).read().split('\n'))      # code only: comments may mention rand()
+        if re.search(r'\brand\(\)', txt) or re.search(r'cimport\s+.*\b(rand|srand|random)\b', txt):
             libc.append(os.path.relpath(p, REPO))
     for p in sorted(glob.glob(os.path.join(REPO, 'sknetwork', '**', '*.py'), recursive=True)):
         rel = os.path.relpath(p, REPO)
